@@ -146,8 +146,9 @@ class MicroPipeline(Scenario):
             com_before = b1.com
             H.contact_forces(b2, b1)
             # ... and against a third body in a genuinely different frame: b2 is re-expressed there
-            b3 = micro_body(H, cx, self.args["a"], (PR.RX51213, [0.5, 0.25, -0.25]), 1.0)
-            H.contact_forces(b2, b3)
+            if self.args.get("third"):
+                b3 = micro_body(H, cx, self.args["a"], (PR.RX51213, [0.5, 0.25, -0.25]), 1.0)
+                H.contact_forces(b2, b3)
             v = self.args.get("move", [0.0, 0.0, 0.0625])
             b2.body2origin_[:3, 3] += cx.arr(v)
             hit3, w12_3, w21_3, det3_ = H.contact_forces(b1, b2, return_details=True)
@@ -254,6 +255,7 @@ def jobs(tier, seed):
             J.append({"family": "forces", "args": dict(base, mode="forces")})
             if si == 0 or tier != "quick":
                 J.append({"family": "history", "args": dict(base, mode="history")})
+                J.append({"family": "history3", "args": dict(base, mode="history", third=True)})
             J.append({"family": "broad_phase", "args": dict(base, mode="broad")})
             if tier != "quick" or (pi + si) % 4 == 0:
                 J.append({"family": "common_motion", "args": dict(base, mode="motion", rc=7, tc=[0.5, -1.0, 2.0])})
